@@ -216,9 +216,43 @@ fn check_sync_files(basis: &[u8], src: &[u8], bs: usize, greedy_only: bool) -> O
     let _ = std::fs::remove_dir_all(&d);
     r
 }
+/// library level: EVERY positive block size. Tiny block sizes (1, 2, 3, 5) with sources that end in bytes occurring nowhere in the
+/// basis, start with them, or consist of them only - the delta follows the signature's block size, whatever the engine was built with
+fn check_small_bs(bs: usize, shape: u32) -> Option<String> {
+    let basis: Vec<u8> = match shape % 3 { 0 => b"abcabcabc".to_vec(), 1 => b"aaaa".to_vec(), _ => b"abcdefghij".to_vec() };
+    let src: Vec<u8> = match shape / 3 { 0 => { let mut s = basis.clone(); s.extend_from_slice(b"xy"); s } 1 => { let mut s = b"zz".to_vec(); s.extend_from_slice(&basis); s } 2 => b"zz".to_vec(),
+        3 => { let mut s = basis[..basis.len() - 1].to_vec(); s.push(b'x'); s } _ => basis.clone() };
+    let r = std::panic::catch_unwind(|| -> Option<String> {
+        let sig = Signature::generate(&mut Cursor::new(&basis), bs).ok()?;
+        let sync = CopiaSync::with_block_size(512);
+        let asy = AsyncCopiaSync::with_block_size(512);
+        let d = match sync.delta(Cursor::new(&src), &sig) { Ok(d) => d, Err(e) => return Some(format!("delta failed: {e}")) };
+        let ad = match rt().block_on(asy.delta(Cursor::new(src.clone()), &sig)) { Ok(d) => d, Err(e) => return Some(format!("async delta failed: {e}")) };
+        for (name, d) in [("CopiaSync::delta", &d), ("AsyncCopiaSync::delta", &ad)] {
+            if d.source_size != src.len() as u64 || d.checksum != StrongHash::compute(&src) { return Some(format!("{name}: declared size/checksum are not those of the source")); }
+            if d.bytes_matched() + d.bytes_literal() != src.len() as u64 { return Some(format!("{name}: copy+literal lengths sum to {} for a source of {} bytes", d.bytes_matched() + d.bytes_literal(), src.len())); }
+            let mut out = Vec::new();
+            if let Err(e) = sync.patch(Cursor::new(&basis), d, &mut out) { return Some(format!("{name} + patch failed: {e}")); }
+            if out != src { return Some(format!("{name} + patch did not reproduce the source")); }
+        }
+        if ad != d { return Some("AsyncCopiaSync::delta differs from CopiaSync::delta".into()); }
+        None
+    });
+    match r { Ok(x) => x, Err(_) => Some("an engine panicked".into()) }.map(|w| format!("{w} (signature block size {bs}, basis {:?}, source {:?})", String::from_utf8_lossy(&basis), String::from_utf8_lossy(&src)))
+}
 pub fn search_pairs(greedy_only: bool, seed: u64, budget: u64, as_twin: bool) -> i32 {
     let t0 = Instant::now();
     let mut cases = 0u64;
+    if !greedy_only {
+        for bs in [1usize, 2, 3, 5] { for shape in 0..15u32 {
+            cases += 1;
+            if let Some(what) = check_small_bs(bs, shape) {
+                println!("WITNESS {{\"kind\":\"pair-small\",\"bs\":{bs},\"shape\":{shape},\"what\":\"{}\"}}", what.replace('"', "'"));
+                if as_twin { println!("CASES {cases}"); }
+                return 1;
+            }
+        } }
+    }
     let mut round = 0u32;
     loop {
         let bs = BLOCK_SIZES[(round as usize) % if round < 48 { 3 } else { 8 }];
@@ -263,6 +297,9 @@ pub fn search_pairs(greedy_only: bool, seed: u64, budget: u64, as_twin: bool) ->
     0
 }
 
+pub fn run_pair_small(w: &str) -> i32 {
+    match check_small_bs(json_u64(w, "bs").unwrap_or(1) as usize, json_u64(w, "shape").unwrap_or(0) as u32) { Some(what) => { println!("REPRODUCED: {what}"); 1 } None => { println!("not reproduced"); 0 } }
+}
 pub fn run_pair(w: &str) -> i32 {
     let round = json_u64(w, "round").unwrap_or(0) as u32;
     let bs = json_u64(w, "bs").unwrap_or(512) as usize;
